@@ -40,6 +40,10 @@ let parse_farm toks : Gauge.farm_env = match toks with
 
 let eligible = Gauge.eligible
 
+let show_sx (x : Gauge.sext) = Printf.sprintf "%s/%s/%s/%s/%s/%s" (sz x.Gauge.sx_app) (sz x.Gauge.sx_denom) (sz x.Gauge.sx_avail) (tok_of_bool x.Gauge.sx_active)
+    (sz x.Gauge.sx_count) (sz x.Gauge.sx_next)
+let show_srecs (l : Gauge.srec list) = S.concat "," (L.map (fun (r : Gauge.srec) -> sz r.Gauge.sr_acct ^ "@" ^ sz r.Gauge.sr_height ^ ":" ^ sz r.Gauge.sr_amount) l)
+
 let show_pays (l : (BinNums.coq_Z * BinNums.coq_Z) list) = S.concat "," (L.map (fun (a, r) -> sz a ^ ":" ^ sz r) l)
 
 let run (path : string) =
@@ -47,17 +51,20 @@ let run (path : string) =
   let cases = ref 0 and steps = ref 0 and nontrivial = ref 0 in
   let case = ref "" and step = ref 0 and nt = ref false in
   let sig_ = Buffer.create 4096 in
-  let st = ref Gauge.rinit in                   (* the MODEL state *)
+  let st = ref Gauge.rinit2 in                  (* the MODEL state (with stable-mint programs) *)
   let dirty = ref "none" in                     (* a known-finding class was met earlier in this case *)
   (* previous implementation observation *)
   let pgs : Gauge.gauge list ref = ref [] and pxs : (int * Gauge.ext) list ref = ref [] and pbs : (int * BinNums.coq_Z) list ref = ref [] in
+  let psx : (int * Gauge.sext) list ref = ref [] in
   (* the step being read *)
   let op : string list ref = ref [] in
   let farm = Hashtbl.create 8 and calc = Hashtbl.create 8 and recv = Hashtbl.create 8 and xenv = Hashtbl.create 8 and lenv = Hashtbl.create 8 and halt = Hashtbl.create 8 in
   let res = ref "" and pays : (string * string * string) list ref = ref [] and split : string list option ref = ref None in
   let gs : (int * Gauge.gauge) list ref = ref [] and es : Gauge.epoch list ref = ref [] and xs : (int * Gauge.ext) list ref = ref [] in
   let bs : (int * BinNums.coq_Z) list ref = ref [] in
-  let reset_step () = op := []; Hashtbl.reset farm; Hashtbl.reset calc; Hashtbl.reset recv; Hashtbl.reset xenv; Hashtbl.reset lenv; Hashtbl.reset halt; res := ""; pays := [];
+  let sxs : (int * Gauge.sext) list ref = ref [] in
+  let senv = Hashtbl.create 8 and srecs = Hashtbl.create 8 and height = ref "0" in
+  let reset_step () = sxs := []; Hashtbl.reset senv; Hashtbl.reset srecs; height := "0"; op := []; Hashtbl.reset farm; Hashtbl.reset calc; Hashtbl.reset recv; Hashtbl.reset xenv; Hashtbl.reset lenv; Hashtbl.reset halt; res := ""; pays := [];
     split := None; gs := []; es := []; xs := []; bs := [] in
   let end_case () =
     if !case <> "" then begin
@@ -68,7 +75,9 @@ let run (path : string) =
   let cmpf field model impl = if model <> impl then mismatch ~case:!case ~step:!step ~field ~model ~impl in
   (* diff the model state against the implementation's records *)
   let diff_state () =
-    let m = !st in
+    let m = (!st).Gauge.r2_base in
+    let isx = L.map snd (L.rev !sxs) in
+    cmpf "stable-programs" (S.concat ";" (L.map show_sx (!st).Gauge.r2_sx)) (S.concat ";" (L.map show_sx isx));
     let igs = L.map snd (L.rev !gs) in
     cmpf "gauges.count" (string_of_int (L.length m.Gauge.r_gauges)) (string_of_int (L.length igs));
     (try L.iteri (fun i (mg, ig) -> cmpf (Printf.sprintf "gauge[%d]" i) (show_gauge mg) (show_gauge ig)) (L.combine m.Gauge.r_gauges igs)
@@ -80,13 +89,18 @@ let run (path : string) =
     L.iter (fun (d, b) -> cmpf (Printf.sprintf "bal[%d]" d) (sz (m.Gauge.r_bal (zi d))) (sz b)) (L.rev !bs) in
   (* custody on the implementation's observation, every denom *)
   let custody () =
-    let igs = L.map snd (L.rev !gs) and ixs = L.map snd (L.rev !xs) in
+    let igs = L.map snd (L.rev !gs) and ixs = L.map snd (L.rev !xs) and isx = L.map snd (L.rev !sxs) in
     L.iter (fun (d, b) ->
-        if not (Gauge.holds_C19_custody (zi d) b igs ixs) then
-          pf "custody" !dirty (Printf.sprintf "denom=%d_bal=%s_owed=%s" d (sz b) (sz (Gauge.owed_active (zi d) igs ixs)))) (L.rev !bs) in
-  let remember () = pgs := L.map snd (L.rev !gs); pxs := L.rev !xs; pbs := L.rev !bs in
+        if not (Gauge.holds_C19_custody2 (zi d) b igs ixs isx) then
+          pf "custody" !dirty (Printf.sprintf "denom=%d_bal=%s_owed=%s" d (sz b) (sz (zadd (Gauge.owed_active (zi d) igs ixs) (Gauge.owed_sx_active (zi d) isx))))) (L.rev !bs) in
+  let remember () = pgs := L.map snd (L.rev !gs); pxs := L.rev !xs; pbs := L.rev !bs; psx := L.rev !sxs in
+  let apply_op2 (o : Gauge.gop2) (impl_class : string) field =
+    let r = Gauge.rstep2 !st o in
+    cmpf field (cls_of r) impl_class;
+    (match r with Base.Ok (s', _) -> st := s' | _ -> ());
+    r in
   let apply_op (o : Gauge.gop) (impl_class : string) field =
-    let r = Gauge.rstep !st o in
+    let r = Gauge.rstep2 !st (Gauge.Base o) in
     cmpf field (cls_of r) impl_class;
     (match r with Base.Ok (s', _) -> st := s' | _ -> ());
     r in
@@ -95,11 +109,11 @@ let run (path : string) =
     (match !op with
      | [] ->
        (* the state the case starts from: swap-fee gauges made by the base fixture's pools *)
-       st := Gauge.rinit; dirty := "none";
+       st := Gauge.rinit2; dirty := "none";
        L.iter (fun (_, (g : Gauge.gauge)) ->
-           if g.Gauge.g_swap then st := Gauge.rapply !st (Gauge.CreateSwap (g.Gauge.g_denom, g.Gauge.g_start, g.Gauge.g_dur))) (L.rev !gs);
+           if g.Gauge.g_swap then st := Gauge.rapply2 !st (Gauge.Base (Gauge.CreateSwap (g.Gauge.g_denom, g.Gauge.g_start, g.Gauge.g_dur)))) (L.rev !gs);
        (* balances the module account starts with enter as a credit *)
-       L.iter (fun (d, b) -> if not (BinInt.Z.eqb b z0) then st := Gauge.rapply !st (Gauge.Donate (zi d, b))) (L.rev !bs);
+       L.iter (fun (d, b) -> if not (BinInt.Z.eqb b z0) then st := Gauge.rapply2 !st (Gauge.Base (Gauge.Donate (zi d, b)))) (L.rev !bs);
        bump "op:init"
      | "create" :: d :: dep :: total :: start :: now :: dur :: funds :: meta :: c :: _ ->
        bump ("op:create:" ^ c);
@@ -120,11 +134,22 @@ let run (path : string) =
      | "extcreate" :: kind :: d :: total :: days :: minlock :: now :: funds :: ok :: c :: _ ->
        bump ("op:extcreate:" ^ kind ^ ":" ^ c);
        ignore (apply_op (Gauge.ExtCreate (zs kind, zs d, zs total, zs days, zs minlock, zs now, zs funds, bool_of_tok ok)) c "extcreate.class")
+     | "screate" :: app :: d :: total :: days :: accept :: now :: funds :: ok :: c :: _ ->
+       bump ("op:screate:" ^ c);
+       ignore (apply_op2 (Gauge.SCreate (zs app, zs d, zs total, zs days, zs accept, zs now, zs funds, bool_of_tok ok)) c "screate.class")
      | "donate" :: d :: amt :: _ ->
        bump "op:donate"; ignore (apply_op (Gauge.Donate (zs d, zs amt)) "ok" "donate.class")
      | "begin" :: now :: _ ->
        let now = zs now in
-       let m = !st in
+       let m = (!st).Gauge.r2_base in
+       let msx = (!st).Gauge.r2_sx in
+       let h = zs !height in
+       let parse_recs toks = (match toks with
+           | tot :: n :: rest -> let (g4, _) = groups 4 (int_of_string n) rest in
+             (zs tot, L.map (function [a; ht; amt; hold] -> { Gauge.sr_acct = zs a; sr_height = zs ht; sr_amount = zs amt; sr_hold = zs hold } | _ -> failwith "senv") g4)
+           | _ -> failwith "senv line") in
+       let senvs = L.mapi (fun i _ -> try parse_recs (Hashtbl.find senv i) with Not_found -> (z0, [])) msx in
+       L.iter (fun e -> if not (Gauge.senv_wf e) then cmpf "env.senv_wf" "true" "false") senvs;
        let ng = L.length m.Gauge.r_gauges and nx = L.length m.Gauge.r_exts in
        let fenv i = try parse_farm (Hashtbl.find farm i) with Not_found -> Gauge.FarmErr in
        let farms = L.init ng fenv in
@@ -194,8 +219,24 @@ let run (path : string) =
                        (Printf.sprintf "coins=%s_total=%s_s=%s_payout=%s" (sz coins) (sz total) (sz s) (sz r))) ipays
              end
            | _ -> ()) calc;
-       let r = Gauge.rstep m o in
+       let r = Gauge.rstep2 !st (Gauge.Begin2 (now, benv, h, senvs)) in
        bump ("op:begin:" ^ cls_of r);
+       (* stable-mint programs: which were due, what step 5 made of the entries *)
+       L.iteri (fun i (x : Gauge.sext) ->
+           let (total, recs) = L.nth senvs i in
+           if x.Gauge.sx_active && BinInt.Z.ltb x.Gauge.sx_next now then begin
+             bump (if BinInt.Z.ltb x.Gauge.sx_count x.Gauge.sx_days then "stable:due" else "stable:due:expired");
+             if L.exists (fun (r : Gauge.srec) -> BinInt.Z.ltb total (if BinInt.Z.leb r.Gauge.sr_amount r.Gauge.sr_hold then r.Gauge.sr_amount else r.Gauge.sr_hold)) recs
+             then bump "stable:eligible-above-total-minted"
+           end;
+           let mc = Gauge.combined_for h msx x.Gauge.sx_app recs in
+           if L.length mc < L.length recs then bump "stable:entries-combined";
+           (match (try Some (Hashtbl.find srecs i) with Not_found -> None) with
+            | Some (n :: rest) ->
+              let (g3, _) = groups 3 (int_of_string n) rest in
+              let il = L.map (function [a; ht; amt] -> { Gauge.sr_acct = zs a; sr_height = zs ht; sr_amount = zs amt; sr_hold = z0 } | _ -> failwith "srecs") g3 in
+              cmpf (Printf.sprintf "stable-entries[%d]" i) (show_srecs mc) (show_srecs il)
+            | _ -> ())) msx;
        (* the hook after fix b2d3331: step 1 (epochs and gauges) fails -> the whole hook is dropped; one of the
           program steps fails -> only that step is dropped.  Which steps kept their writes (model's view; the
           diff of the program records and balances below is what ties it to the implementation) *)
@@ -223,6 +264,7 @@ let run (path : string) =
        (match r with
         | Base.Ok (s', dp) ->
           st := s';
+          if L.exists2 (fun (a : Gauge.sext) (b : Gauge.sext) -> not (BinInt.Z.eqb a.Gauge.sx_avail b.Gauge.sx_avail)) msx s'.Gauge.r2_sx then bump "stable:paid";
           (* payouts per (denom, account) *)
           let agg = Hashtbl.create 16 in
           L.iter (fun ((d, a), v) -> let k = (sz d, sz a) in
@@ -258,6 +300,11 @@ let run (path : string) =
                match (try Some (L.assoc i !pxs) with Not_found -> None) with
                | Some (x : Gauge.ext) when BinInt.Z.eqb x.Gauge.x_denom dz -> zadd acc (zsub x.Gauge.x_avail x'.Gauge.x_avail)
                | _ -> acc) z0 (L.rev !xs) in
+           let booked_s = L.fold_left (fun acc (i, (x' : Gauge.sext)) ->
+               match (try Some (L.assoc i !psx) with Not_found -> None) with
+               | Some (x : Gauge.sext) when BinInt.Z.eqb x.Gauge.sx_denom dz -> zadd acc (zsub x.Gauge.sx_avail x'.Gauge.sx_avail)
+               | _ -> acc) z0 (L.rev !sxs) in
+           let booked_x = zadd booked_x booked_s in
            if not (Gauge.holds_C19_paid paid (zadd booked_g booked_x) recvd b b') then
              pf "paid_le_booked" !dirty
                (Printf.sprintf "denom=%d_paid=%s_booked=%s_recv=%s_bal=%s->%s" d (sz paid) (sz (zadd booked_g booked_x)) (sz recvd) (sz b) (sz b'))) (L.rev !bs)
@@ -269,7 +316,7 @@ let run (path : string) =
       match tokens line with
       | "case" :: id :: kind :: _ ->
         end_case (); case := id; step := -1; nt := false; Buffer.clear sig_; Buffer.add_string sig_ kind; reset_step ();
-        pgs := []; pxs := []; pbs := []; bump ("kind:" ^ kind)
+        pgs := []; pxs := []; pbs := []; psx := []; bump ("kind:" ^ kind)
       | "op" :: rest -> op := rest; Buffer.add_string sig_ line
       | "env" :: k :: _ -> bump ("env:" ^ k); Buffer.add_string sig_ line
       | "farm" :: i :: rest -> Hashtbl.replace farm (int_of_string i) rest; Buffer.add_string sig_ line
@@ -288,6 +335,12 @@ let run (path : string) =
         xs := (int_of_string i, { Gauge.x_kind = zs kind; x_denom = zs den; x_avail = zs avail; x_active = bool_of_tok act;
                                   x_days = z0; x_count = zs cnt; x_next = zs next; x_minlock = z0 }) :: !xs
       | "b" :: d :: v :: _ -> bs := (int_of_string d, zs v) :: !bs
+      | "sx" :: i :: app :: den :: avail :: act :: cnt :: next :: _ ->
+        sxs := (int_of_string i, { Gauge.sx_app = zs app; sx_denom = zs den; sx_avail = zs avail; sx_active = bool_of_tok act;
+                                   sx_days = z0; sx_count = zs cnt; sx_next = zs next; sx_accept = z0 }) :: !sxs
+      | "height" :: v :: _ -> height := v; Buffer.add_string sig_ line
+      | "senv" :: i :: rest -> Hashtbl.replace senv (int_of_string i) rest; Buffer.add_string sig_ line
+      | "srecs" :: i :: rest -> Hashtbl.replace srecs (int_of_string i) rest
       | "end" :: _ -> process (); reset_step ()
       | _ -> ()) lines;
   end_case ();
